@@ -90,6 +90,7 @@ func (c *Chip) caAgree(k *CAKey, pk []byte) bool {
 	}
 	c.ca.awaitGA = false
 	c.ca.switchAfterResponse = sm
+	c.Truth.CALastSM = sm.Clone()
 	return true
 }
 
